@@ -26,6 +26,7 @@ CONFIGS = [{'options': {'output.format': False}}, {}, {'syntax': 'xml'},
 
 
 MODEL_MAX_NODES = 120
+P_RANDOM_ESCAPES = 0.3      # share of the random forests that get backslash escapes sprinkled into their templates
 
 
 class Case:
@@ -116,6 +117,8 @@ class Gen:
             if isinstance(n, u.El):
                 for _, _, kind in n.attrs:
                     ctx.cover('attr-kind:' + (kind or 'unquoted'))
+                if u.el_has_esc(n):
+                    ctx.cover('escape:element-with-escaped-characters')
                 if u.el_has_ph(n):
                     ctx.cover('placeholder:' + ('nested-repeaters' if self._rep_depth(nodes, n) >= 2 else 'one-or-no-repeater'))
         return True
@@ -290,6 +293,65 @@ class Gen:
                                     self.add(top, limit, CONFIGS[k % len(CONFIGS)], 'placeholders', text)
                                 k += 1
 
+    # backslash escapes next to counters: position x escaped character x where it stands relative to the run x form x N
+    def escapes(self):
+        thorough = self.ctx.tier != 'quick'
+        forms = u.all_forms(sizes=(1, 2, 3), bases=(None, 0, 3, 10))
+        ns = [1, 2, 3, 9, 10, 11, 30] if thorough else [2, 3, 10, 11]
+        positions = [('name', 'name'), ('id', 'id'), ('class', 'class'), ('attr', 'unquoted'), ('attrq', 'quoted'), ('attrq1', 'quoted'),
+                     ('attrx', 'expression'), ('attrname', 'attrname'), ('text', 'text'), ('text-leading', 'text'),
+                     ('attrq-leading', 'quoted'), ('child', 'class'), ('group-text', 'text')]
+        k = 0
+        for pos, where in positions:
+            chars = list(dict.fromkeys(u.ESCAPABLE[where]))
+            for c in chars:
+                # the backslash and the dollar with every form, the others with forms taken in turn
+                many = c in ('\\', '$')
+                for pl_name, pl in sorted(u.ESC_PLACEMENTS.items()):
+                    reps = (len(forms) if thorough else 6) if many else 1
+                    for _ in range(reps):
+                        k += 1
+                        form = forms[k % len(forms)]
+                        form2 = forms[(k * 7 + 3) % len(forms)]
+                        f = u.Num(form.size, form.reverse, form.base, form.at)
+                        f2 = u.Num(form2.size, form2.reverse, form2.base, form2.at)
+                        n = ns[k % len(ns)]
+                        lit = '' if pos.endswith('-leading') else {'name': 'x', 'attr': 'v', 'attrname': 't'}.get(pos, 'a')
+                        tpl = [x for x in pl(lit, c, f, f2) if x != '']
+                        e = u.El(name=['x-y'], repeat=n)
+                        top = [e]
+                        if pos == 'name':
+                            e.name = tpl
+                        elif pos == 'id':
+                            e.id = tpl
+                        elif pos == 'class':
+                            e.classes = [tpl, ['d']]
+                        elif pos == 'attr':
+                            e.attrs = [(['t'], tpl, '')]
+                        elif pos in ('attrq', 'attrq-leading'):
+                            e.attrs = [(['t'], tpl, '"'), (['n'], [u.Num(1)], '')]
+                        elif pos == 'attrq1':
+                            e.attrs = [(['t'], tpl, "'")]
+                        elif pos == 'attrx':
+                            e.attrs = [(['t'], tpl, '{')]
+                        elif pos == 'attrname':
+                            e.attrs = [(tpl, ['v', u.Num(1)], '"')]
+                        elif pos in ('text', 'text-leading'):
+                            e.text = tpl
+                        elif pos == 'child':     # inherited by an unrepeated descendant
+                            e.kids = [u.El(name=['p'], kids=[u.El(name=['q'], classes=[tpl], text=copy.deepcopy(tpl))])]
+                        else:                    # in a repeated group, below an outer repeater
+                            e.repeat = None
+                            e.text = tpl
+                            top = [u.El(name=['p'], repeat=2, kids=[u.Group([e, u.El(name=['b'], classes=[['c', u.Num(1)]])], n)])]
+                        u.fix_el(e)
+                        total = u.total_repeat_copies(top)
+                        limit = None if k % 4 else 1 + k % (total + 1)
+                        if self.add(top, limit, CONFIGS[k % len(CONFIGS)], 'escapes'):
+                            self.ctx.cover('escape:pos:' + pos)
+                            self.ctx.cover('escape:placement:' + pl_name)
+                            self.ctx.cover('escape:char:' + ('backslash' if c == '\\' else 'dollar' if c == '$' else 'other'))
+
     def random(self, count):
         rng = self.rng
         made = 0
@@ -302,6 +364,8 @@ class Gen:
                                   rep_max=30 if rng.random() < 0.2 else 6, p_num=rng.choice([0.3, 0.5, 0.8]),
                                   p_ph=p_ph, rich=rng.random() < 0.5)
             text = None
+            if rng.random() < P_RANDOM_ESCAPES:
+                u.sprinkle_escapes(rng, nodes, rng.choice([0.3, 0.6]))
             if p_ph and u.forest_has_ph(nodes):
                 r = rng.random()
                 if r < 0.3:
@@ -369,13 +433,19 @@ def numbering_strings(ctx):
     return out
 
 
+# ... and directly after / before an escaped character: `\\` is a backslash, `\$` a dollar sign, neither takes part in the run
+ESCAPE_CONTEXTS = (('a{\\\\', '}'), ('a{\\$', '\\$}'), ('a[t="\\\\', '\\\\"]'), ("a[t='x\\\\", "']"), ('a[t=v\\\\', ']'), ('a[t={\\\\', '}]'),
+                   ('a.c\\\\', '\\@'), ('a#i\\$', ''), ('a\\\\', '*2'), ('a[t\\\\', '=v]'), ('a{\\\\\\$', '\\-3}'))
+
+
 def run_tokens(ctx, model):
     """Every `$...$@-M` form tokenizes to RepeaterNumber(size, reverse, base), alone and inside a name."""
     strings = numbering_strings(ctx)
     wires = []
     items = []
+    fails = 0
     for s, want in strings:
-        for pre, post in (('', ''), ('ab', ''), ('a', 'b'), ('a', '*3'), ('a.c', '.d'), ('a{t ', '}'), ('a[t="', '"]')):
+        for pre, post in (('', ''), ('ab', ''), ('a', 'b'), ('a', '*3'), ('a.c', '.d'), ('a{t ', '}'), ('a[t="', '"]')) + ESCAPE_CONTEXTS:
             src = pre + s + post
             r = impl_markup(src)
             ctx.count_eval()
@@ -383,6 +453,8 @@ def run_tokens(ctx, model):
             ok = r[0] == 'ok' and any(k == ('RepeaterNumber',) + want and st == len(pre) and en == len(pre) + len(s)
                                       for k, st, en in r[1])
             if not ok:
+                fails += 1
+            if not ok and fails <= 3:       # a few token-level inputs; the end-to-end streams report the rest
                 ctx.property_failure('C02:tokenize:' + src,
                                      'tokenize(%r): no RepeaterNumber(size=%d, reverse=%r, base=%d) over [%d,%d): %r' % (
                                          (src,) + want[:3] + (len(pre), len(pre) + len(s), r)),
@@ -947,7 +1019,7 @@ def run(ctx):
         'abbreviations rendered from an AST: elements and groups with *N (N <= 30) nested to depth 5, numbering '
         'forms ($-runs of width 1..6, @, @M, @-, @-M) in element names, ids, classes, attribute names/values and text, '
         'maxRepeat from 1 to total+2 (total = copies completed without a limit) or absent; streams: corpus, every '
-        'form x every position x N, nesting skeletons x every limit, random forests. non-trivial = expected forest '
+        'form x every position x N, nesting skeletons x every limit, random forests, escapes (below). non-trivial = expected forest '
         'has at least two elements; distinct by (abbreviation, config). Oracle: forest of (name, attributes, text) '
         'computed from the AST by the statement (copies i=1..N, counter of the nearest repeated unit or 1, '
         'start+i-1 / start+N-i, zero padding to the run width, copies completed in document order until the limit '
@@ -971,6 +1043,19 @@ def run(ctx):
         'the maxRepeat clause as for *N); only generated with a `$#` inside, and with lines every `$#` has one around '
         'it (where the text goes without `$#` is not part of C02). The convert-level model/spec comparison (RepeatRun) '
         'takes no text: cases with a text are compared through the markup model only. '
+        'Backslash escapes next to counters (documented: a backslash takes the next character literally and is not output, '
+        '`\\$` is a dollar sign and no counter, `\\\\` is one backslash after which a `$` run is a run like after any other '
+        'character; hard-coded in repeat_util.Esc): stream escapes = position (element name, id, class, unquoted / "double" / '
+        "'single' / {expression} attribute value, attribute name, text, value or text STARTING with the escape, class+text of an "
+        'unrepeated descendant, text in a repeated group below a repeater) x escaped character (backslash, dollar, @ - # . * + ^ '
+        '( ) [ ] { } : , ! % / = | space digit letter, as far as the output observer can read the character back in that '
+        'position) x placement (escape directly before the run, directly after it, between two runs, escaped backslash + '
+        'escape before, two escapes before, apart on both sides, around, escape and no run at all) x numbering form (widths '
+        '1..3, @, @M, @-, @-M; backslash and dollar with six forms each, all forms in the thorough tier) x N x limit; 30% of the '
+        'random forests get escapes of the same alphabets sprinkled into their templates (at piece boundaries = next to `$` '
+        'runs and `$#`, and inside literals; explicitly empty values stay empty). Numbering tokens are also tokenized '
+        'directly after an escaped backslash / escaped dollar in text, quoted, unquoted and expression values, class, id, '
+        'element and attribute name. '
         'The limit as settings deliver it (stream delivery, oracle only -- the model takes the resolved limit as a natural '
         'number): the generated cases with a limit once more with the limit spelled maxRepeat / max_repeat / both keys, as '
         'an int or as the integral float a JSON/YAML bridge hands over (2.0), by every entry point: expand with a dict, expand '
@@ -990,6 +1075,7 @@ def run(ctx):
     g.skeletons()
     g.attr_kinds()
     g.placeholders()
+    g.escapes()
     g.random(3000 if ctx.tier == "quick" else 60000)
     for k, abbr in enumerate(TIE_ONLY):
         for cfg in ({'options': {'output.format': False}}, {'options': {'output.format': False}, 'maxRepeat': 2 + k % 3}):
@@ -1014,11 +1100,29 @@ def run(ctx):
                     'output': r[1][:160] if r[0] == 'ok' else r})
 
 
+def replay_lorem(rp):
+    """lorem_util.replay_c02 with `draws` None meaning a fresh seeded stream."""
+    import lorem_util
+    r, o = lorem_util.impl_expand_oracle(rp['abbr'], rp['config'], draws=rp.get('draws'))
+    meta = dict(rp['meta'], counts=[tuple(c) for c in rp['meta']['counts']])
+    bad = lorem_util.oracle_c02(rp['abbr'], rp['config'], meta, r, o)
+    print('expand(%r, %s) -> %r' % (rp['abbr'], canon_cfg(rp['config']), r))
+    print('property %s' % ('FAILS: ' + bad if bad else 'holds on this input'))
+    return 1 if bad else 0
+
+
 def replay(ctx, obj):
     rp = obj.get('replay', {})
     if rp.get('component') == 'C02lorem':
         import lorem_util
-        return lorem_util.replay_c02(rp)
+        # The replay holds the random draws of the run that failed.  A library that words the text differently (the
+        # repaired / unchanged one) may ask for more draws than were recorded; the statement does not depend on the
+        # draws, so the input is then judged under a fresh seeded stream instead of being called a failure.
+        r, _ = lorem_util.impl_expand_oracle(rp['abbr'], rp['config'], draws=rp.get('draws') or [])
+        if r[0] == 'oracle-limit':
+            rp = dict(rp, draws=None)
+            print('recorded draws exhausted: judged under a fresh seeded draw stream')
+        return replay_lorem(rp)
     if rp.get('kind') == 'tokenize':
         r = impl_markup(rp['src'])
         want = ('RepeaterNumber',) + tuple(rp['want'])
